@@ -140,12 +140,26 @@ impl PieceType for Pawn {
             let dest = BitBoard::from(Pos::new(ep_file, dest_rank));
             let capture_pawn = Pos::new(ep_file, rank);
 
-            // if the opponent's pawn is checking the king (and the only piece checking the king)
-            // or if the there is no check and the opponent's pawn doesn't block a check against our king
-            // then we can capture it via en-passant with any unpinned pawn on the same rank and adjacent file as the
-            // opponent's pawn
-            if check_mask.contains(capture_pawn) && !board.pinned.contains(capture_pawn) {
-                for src in BitBoard::from(rank) & files & pieces & !board.pinned {
+            // an en-passant capture removes two pawns from their squares at once, so the
+            // pin and check information of the board does not describe it: decide each
+            // capture directly by looking at the king on the occupancy after the capture
+            let their_pieces = board.raw[!board.turn] - BitBoard::from(capture_pawn);
+            let queens = board.raw[Piece::Queen];
+            let rooks = (board.raw[Piece::Rook] | queens) & their_pieces;
+            let bishops = (board.raw[Piece::Bishop] | queens) & their_pieces;
+            let knights = board.raw[Piece::Knight] & their_pieces;
+            let pawns = board.raw[Piece::Pawn] & their_pieces;
+
+            for src in BitBoard::from(rank) & files & pieces {
+                let occupied =
+                    (combined - BitBoard::from(src) - BitBoard::from(capture_pawn)) | dest;
+
+                let attackers = (chess_lookup::rook_moves(king_sq, occupied) & rooks)
+                    | (chess_lookup::bishop_moves(king_sq, occupied) & bishops)
+                    | (chess_lookup::knight_moves(king_sq) & knights)
+                    | (chess_lookup::pawn_attacks_moves(king_sq, board.turn) & pawns);
+
+                if attackers.none() {
                     unsafe {
                         movelist.push_unchecked(LegalMovesAt {
                             src,
